@@ -273,6 +273,10 @@ class _RealFinder:
         if self.code[word_start:offset].strip() == "":
             word_start = end
         if self.code[end].isspace():
+            # nothing is being typed; only a dot before the blanks continues an expression
+            prev = self._find_last_non_space_char(end)
+            if prev < 0 or self.code[prev] != ".":
+                return ("", "", offset)
             word_start = end
         if self.code[real_start:word_start].strip() == "":
             real_start = word_start
